@@ -38,6 +38,14 @@ def gen_case(rng, i, tier):
             ops += ["read 0 %d" % rng.choice([1, 64, 4096]) for _ in range(rng.choice([0, 0, 1, 2]))]
         elif r < 0.7:
             ops += ["read 0 4096"] * rng.choice([1, 5, 30])
+        elif r < 0.78:
+            # played (not sought) to within a fraction of a half short block of a link's end: the lapping samples are the link's last
+            # few samples continued by the decoder's overlap half
+            k = rng.randrange(len(lens))
+            if lens[k] > 300:
+                e = bounds[k + 1]
+                ops.append("pcmseek 0 %d" % max(bounds[k], e - 10000))
+                ops.append("readto 0 %d" % (e - rng.choice([1, 7, 40, 64, 100, 111, 127, 200, 500, 1000])))
         elif r < 0.85 and total <= 20000:
             # play on to the end of the stream without any seek: the decoder instance that has lapped before is the one asked for its
             # overlap half by the next lapped seek (which the oracle takes from a handle that was simply played to the end)
@@ -120,6 +128,12 @@ def oracle(d):
                 # (at half rate: two positions per sample, one for the last sample of an odd-length link — C20's subject)
                 if (adv not in (2 * int(rc), 2 * int(rc) - 1)) if hr.get(t[1]) else (adv != int(rc)):
                     return "advance: " + a
+        elif t[0] == "readto":
+            if f.get("rc", "").startswith("OV_"):
+                return "hole: %s returned %s" % (op, f["rc"])
+            if f.get("ok") == "0":
+                return "data: slot %s: %s" % (t[1], a)
+            last_tell[int(t[1])] = int(f["tell"])
         elif t[0] == "halfrate":
             hr[t[1]] = f.get("p") == "1"
         elif t[0] == "crosslap":
